@@ -37,6 +37,7 @@ TIERS = {
     "quick": dict(runs=dict(C03=40000, C04=40000, C05=30000, C08=12000, C12=30000, C17=60000, C18=12000, C19=20000), maxlog=9, maxlog_tree=6, max_copy=20000, gate=200, cap_s=150, cold=320),
     "thorough": dict(runs=dict(C03=200000, C04=160000, C05=120000, C08=80000, C12=160000, C17=400000, C18=60000, C19=100000), maxlog=12, maxlog_tree=8, max_copy=70000, gate=3000, cap_s=1500, cold=3200),
 }
+HANG_S = 120  # seconds of wall clock without a line from a worker before it counts as hung
 MAX_FAILING_RUNS = 400  # a sweep stops once this many of its runs failed
 MAX_EVENTS = 60  # violating runs per flavour that are classified (replayed) individually
 MAX_MINIMISE = 3  # distinct violation signatures that are minimised and written as replay files
@@ -71,6 +72,8 @@ class Sweep:
         self.prefix = []  # e.g. valgrind
         self.cold = False  # one run per fresh process, simulated execution before the reference run
         self.nviol = 0  # runs with a violation in their result line
+        self.hangs = []  # (index, seed): a worker printed nothing for HANG_S seconds of wall clock and was killed
+        self.wstate = {}
         self.stopped_early = False
         self.lock = threading.Lock()
 
@@ -99,6 +102,8 @@ class Sweep:
                 self.stopped_early = True
                 return
             p = subprocess.Popen(self.cmd(start), stdout=subprocess.PIPE, stderr=subprocess.PIPE, text=True, bufsize=1)
+            st = dict(p=p, last=time.time(), hung=False)
+            self.wstate[wid] = st
             cur = None
             done = False
             errbuf = []
@@ -108,6 +113,7 @@ class Sweep:
             killer.start()
             try:
                 for line in p.stdout:
+                    st["last"] = time.time()
                     if not line or len(line) < 2:
                         continue
                     tag = line[0]
@@ -143,6 +149,13 @@ class Sweep:
                 killer.cancel()
             rc = p.wait()
             et.join(timeout=2)
+            if st["hung"]:
+                if cur is not None:
+                    with self.lock:
+                        self.hangs.append(cur)
+                    start = cur[0] + self.w
+                    continue
+                return
             if self.stopped_early:
                 return
             if done and self.cold:
@@ -165,13 +178,28 @@ class Sweep:
             self.restarts += 1
             start = cur[0] + self.w
 
+    def watchdog(self, stop):
+        # wall-clock watchdog: only unsticks a worker that is blocked in the OS or spins in uninstrumented code
+        # (the logical step budget cannot see those); it never produces a VIOLATION, the check ends with exit 2
+        limit = HANG_S * (6 if self.prefix else 1)
+        while not stop.wait(1.0):
+            now = time.time()
+            for st in list(self.wstate.values()):
+                if not st["hung"] and st["p"].poll() is None and now - st["last"] > limit:
+                    st["hung"] = True
+                    st["p"].kill()
+
     def run(self):
         ts = [threading.Thread(target=self.worker, args=(i,)) for i in range(self.w)]
         t0 = time.time()
+        stop = threading.Event()
+        wd = threading.Thread(target=self.watchdog, args=(stop,), daemon=True)
+        wd.start()
         for t in ts:
             t.start()
         for t in ts:
             t.join()
+        stop.set()
         self.wall = time.time() - t0
         return self
 
@@ -800,6 +828,9 @@ def main():
     write_evidence(prop, tier, seed, sweeps, infos, gate_checked, violations, known_hits, total_viol_runs, time.time() - t_start, T, lim, gate_ok, replay_checked)
     if violations:
         sys.exit(1)
+    hung = [(sw.flavour, h) for sw in sweeps for h in sw.hangs]
+    if hung:
+        harness_error("a worker made no progress for %d s of wall clock in %s run index %d (seed %d): blocked in the OS or spinning in uninstrumented code; %d such runs" % (HANG_S, hung[0][0], hung[0][1][0], hung[0][1][1], len(hung)))
     if unreproducible or not gate_ok:
         for u in unreproducible[:5]:
             log("unreproducible: " + u)
